@@ -119,13 +119,15 @@ ConvergedExcept(S, X) ==
 (* the catch-up a rejoining node receives does not reproduce the primary's data (lines   *)
 (* without the version field, strategy dropped from create-db, tombstones sent as values, *)
 (* stale keys never deleted, writes racing with the catch-up): the rejoined node may     *)
-(* differ from the primary; every other node must still equal it                         *)
+(* differ from the primary; while it is still StartingUp it also re-broadcasts the        *)
+(* (mangled) catch-up writes to the other members, so other secondaries may be damaged    *)
+(* too.  Still required: the run ends quiet and a primary exists.                        *)
 Dev_ResyncDiverges ==
   /\ "Dev_ResyncDiverges" \in Devs
   /\ E.ev \in {"quiesce", "end"} /\ E.quiet /\ On("CONV")
   /\ rejoined # {}
   /\ Converged(E.state) = FALSE
-  /\ ConvergedExcept(E.state, rejoined) = TRUE
+  /\ Primaries(E.state) # {}
   /\ cnt' = Zero /\ UNCHANGED <<curop, taint, rejoined>>
   /\ used' = used \cup {"Dev_ResyncDiverges"}
 
